@@ -164,3 +164,35 @@ func HReuseReject() {
 		vr.Assert("c17.accept-after-reject.equal", message.VEqPayloads(orig, r.Payloads))
 	}
 }
+
+// HReuseSequence (C17): a concrete long history on one SA key object - Param(2) operations, two protects
+// (each unprotected by a newly built peer holding the same keys) then one unprotect of such a peer's
+// message, repeated - every one of which must behave as on a fresh object.  The messages are small (an
+// empty list: a full block of padding each; or one Nonce).  Complements the inductive step, whose
+// invariant only speaks about the state the clean objects have.  Params: suite, role, length, payload kinds..., 0.
+func HReuseSequence() {
+	suite, role, n := vr.Param(0), vr.Param(1), vr.Param(2)
+	km := VGenKeyMaterial(suite)
+	used := VNewKey(km)
+	m0 := message.VGenMessage(3, -1)
+	for i := 0; i < n; i++ {
+		m := &message.IKEMessage{IKEHeader: m0.IKEHeader, Payloads: message.VClonePayloads(m0.Payloads)}
+		peer := VNewKey(km)
+		sender, receiver, r := used, peer, role
+		if i%3 == 2 {
+			sender, receiver, r = peer, used, 1-role
+		}
+		b, err := EncodeEncrypt(m, sender, vRole(r))
+		vr.Assert("c17.sequence.protect.noerr", err == nil)
+		if err != nil {
+			return
+		}
+		d, err := DecodeDecrypt(b, nil, receiver, vRole(1-r))
+		vr.Assert("c17.sequence.accepted", err == nil)
+		if err != nil {
+			return
+		}
+		vr.Assert("c17.sequence.equal", message.VEqPayloads(m0.Payloads, d.Payloads))
+	}
+	vr.Assert("c17.sequence.invariant", vInvariant(used))
+}
